@@ -13,7 +13,7 @@ EXPLANATION = ('Static rules: L1 serialisation by typing — Observer::next take
                '(no cell is acquired while a guard of the same class or of a class that is ordered after it is held), (b) calls that leave '
                'the library upstream or into user code (subscribe, unsubscribe of a foreign subscription, stored or user closures, polling a '
                'user future) happen under a library lock only at the tabled sites; downstream observer calls only ever descend the pipeline; '
-               'L6 no panic from paired cells: where a reader unwraps cell B under the guard of cell A (A non-empty promises B non-empty), every writer empties A before B; L4 no lost wake-up (same rules as C14.R3/R4); L5 merge_all takes its slot decision and acts on it in one critical section (same rule as C05.F3). Together: no deadlock among library locks for callers that do not re-enter '
+               'L6 no panic from paired cells: where a reader unwraps cell B under the guard of cell A (A non-empty promises B non-empty), every writer empties A before B; L7 the first-subscriber hand-over of share() is one critical section (same rule as C11.P-b); L4 no lost wake-up (same rules as C14.R3/R4); L5 merge_all takes its slot decision and acts on it in one critical section (same rule as C05.F3). Together: no deadlock among library locks for callers that do not re-enter '
                'from a callback. Does not decide value-dependent panics, fairness or preemption-level schedules.')
 ASSUMPTIONS = ['callers do not re-enter the same pipeline from inside a callback (the property\'s own proviso)',
                'std::sync::Mutex and RefCell are not re-entrant; guards are released at the MIR drop of the guard local']
@@ -194,9 +194,13 @@ def check(cx):
             res.append(Finding(ID, 'L3b', '%s|%s' % (label, kind), False,
                                'calls out of the library (%s) while holding %s: an upstream or user callback that comes back into the pipeline re-acquires the cell (Mutex: self-deadlock, RefCell: panic)' % (kind, c),
                                loc, [desc]))
-    for key in FOREIGN_UNDER_LOCK:
-        if key not in foreign:
-            res.append(Finding(ID, 'L3b', 'table:%s|%s' % (key[0], key[1]), False, 'tabled site no longer exists (table must be updated)'))
+    # (an exemption that is no longer used is harmless: the code stopped calling out under that lock)
+    # L7: the first-subscriber hand-over of share() is one critical section (same rule as C11.P-b): two threads that subscribe first at
+    # the same time must not both find the operator unconnected (the loser would hit the unreachable!() of the state switch)
+    from . import c11
+    for f in c11.check(cx):
+        if f.rule == 'P-b':
+            res.append(Finding(ID, 'L7', f.key, f.ok, f.msg, f.loc, f.witness))
     # L5: check-then-act atomicity of the flattening state (no lost wake-up of a queued inner)
     from . import c05
     res += c05.f3(cx, ID, 'L5')
